@@ -51,8 +51,18 @@ def metamorphic(ctx, rng):
     ts = D.datable_ts(rng, historical=(method == "variational_gamma" and rng.random() < 0.2),
                       big=rng.random() < 0.2)
     kw = D.method_options(rng, method, ts)
+    unary = False
+    if method != "variational_gamma" and rng.random() < 0.35:
+        # unary nodes above the top coalescence of a tree (their prior comes from SpansBySamples.second_pass)
+        for _try in range(6):
+            base = D.datable_ts(rng, historical=False, big=True)
+            uts = gen.unary_chain_ts(rng, base) if base.num_trees > 1 else None
+            if uts is not None:
+                ts, unary = uts, True
+                kw["allow_unary"] = True
+                break
     r = D.call(method, ts, **kw)
-    desc = {"method": method, "opts": D.jsonable_opts(kw), "ts": gen.ts_summary(ts)}
+    desc = {"method": method, "opts": D.jsonable_opts(kw), "ts": gen.ts_summary(ts), "unary_chain": unary}
     if r[0] != "ok":
         ctx.case(dict(desc, outcome=r[1]), nontrivial=False, kind="meta/raise")
         return
